@@ -16,6 +16,7 @@ import FV.Model.Registry
 import FV.Proofs.Registry
 import FV.Generated.Params
 import FV.Generated.Locks
+import FV.Proofs.Locks
 
 namespace FV.C06
 open FV.Reg
@@ -116,5 +117,15 @@ critical section ONE step of the model and rules out the self-deadlocks (a secon
 writer, SendError under SendReply's lock) and leaked locks that would wedge every later request. -/
 theorem c06_lock_discipline :
     FV.Locks.ok [1, 2, 3] FV.Generated.Locks.mutexTags FV.Generated.Locks.facts = true := by decide +kernel
+
+/-- What the decided discipline means for EVERY call path of lib/go's (resolved) call graph: a call made under
+one of these mutexes never reaches, however deep, a function that acquires the same mutex
+(`FV.Locks.closed_sound`: the mask table is closed under calls, so the number of rounds is not trusted). -/
+theorem c06_no_nested_lock_on_any_call_path {fn : FV.Locks.Fn} (hfn : fn ∈ FV.Generated.Locks.facts)
+    {m g h : Nat} (hheld : (m, g) ∈ fn.heldCalls)
+    (hrel : FV.Locks.relevant [1, 2, 3] FV.Generated.Locks.mutexTags m = true)
+    (hr : FV.Locks.Reach FV.Generated.Locks.facts g h) {fnh : FV.Locks.Fn}
+    (hh : FV.Generated.Locks.facts[h]? = some fnh) : m ∉ fnh.acquires :=
+  FV.Locks.ok_no_nested_path _ _ _ c06_lock_discipline hfn hheld hrel hr hh
 
 end FV.C06
